@@ -3,7 +3,7 @@ from harness import family_check as F
 
 
 def run(ctx):
-    F.run_family_check(ctx, "C17", 120, 2000)
+    F.run_family_check(ctx, "C17", 240, 2000)
 
 
 replay = F.replay
